@@ -402,9 +402,10 @@ def calcq_tie(ctx, rng, out, n):
             continue
         cases.append(dict(src="method", layout=layout + (":rows=pi" if rows else ":general-M"), R=R, M=M, w=w, real=_Stub(R), params=(), rev=None))
     kinds = U.model_kinds()
-    names = [k for k, v in kinds.items() if v == "nucleotide" and k not in U.DISCRETE]
+    names = canned([k for k, v in kinds.items() if v == "nucleotide" and k not in U.DISCRETE])
     prot = [k for k, v in kinds.items() if v == "protein"]
     names.append(prot[ctx.seed % len(prot)])
+    names += [nm for _, nm in user_models(rng, out)]
     for name in names:
         sm = U.get_sm(name)
         if not hasattr(sm, "calcQ"):
@@ -604,3 +605,117 @@ def t_scope_explicit(spec, rng):
     s = resolved(spec)
     s["how"] = scope_kind(spec)
     return s, 1
+
+
+# --------------------------------------------------------------------------
+# (5) user-built models: whatever the library hands out as a TimeReversible model must behave like one
+# --------------------------------------------------------------------------
+USER_PREFIX = "UTR:"
+_PAIRS6 = ["A/C", "A/G", "A/T", "C/G", "C/T", "G/T"]
+
+
+def _user_predicates(name):
+    from cogent3.evolve.predicate import MotifChange
+
+    preds = {}
+    for label in name[len(USER_PREFIX):].split(";"):
+        p = None
+        for term in label.split("|"):
+            if ">" in term:
+                x, y = term.split(">")
+                q = MotifChange(x, y, forward_only=True)
+            else:
+                x, y = term.split("/")
+                q = MotifChange(x, y)
+            p = q if p is None else (p | q)
+        preds[label] = p
+    return preds
+
+
+def ensure_model(name, **kw):
+    """build (once) the user-defined TimeReversibleNucleotide model encoded in `name` = 'UTR:' + parameters separated by ';', each a
+    union ('|') of terms 'X/Y' (both directions) or 'X>Y' (one direction); registers it where c02_util.get_sm / kind_of look"""
+    key = (name, tuple(sorted(kw.items())))
+    if key not in U._MODEL_CACHE:
+        from cogent3.evolve.substitution_model import TimeReversibleNucleotide
+
+        U._MODEL_CACHE[key] = TimeReversibleNucleotide(predicates=_user_predicates(name), recode_gaps=True, model_gaps=False, name=name, **kw)
+    U.model_kinds()[name] = "nucleotide"
+    return U._MODEL_CACHE[key]
+
+
+_plain_get_sm = U.get_sm
+
+
+def _get_sm(name, **kw):
+    if isinstance(name, str) and name.startswith(USER_PREFIX):
+        return ensure_model(name, **kw)
+    return _plain_get_sm(name, **kw)
+
+
+U.get_sm = _get_sm  # problem descriptions (and replays) may name a user-built model
+
+
+def canned(names):
+    return [n for n in names if not n.startswith(USER_PREFIX)]
+
+
+def rand_user_models(rng):
+    """one candidate per layout of the predicate set: (layout, name)"""
+    def pairs(k):
+        return rng.sample(_PAIRS6, k)
+
+    def directed(pair, flip=False):
+        x, y = pair.split("/")
+        return f"{y}>{x}" if flip else f"{x}>{y}"
+
+    out = []
+    # symmetric terms only, disjoint parameters
+    k = rng.randint(1, 4)
+    chosen = pairs(rng.randint(k, 5))
+    groups = [[] for _ in range(k)]
+    for i, p in enumerate(chosen):
+        groups[i % k].append(p)
+    out.append(("symmetric-disjoint", [sorted(g) for g in groups]))
+    # symmetric, one parameter's terms contained in another's
+    a, b, c = pairs(3)
+    out.append(("symmetric-nested", [[a], sorted([a, b])] + ([[c]] if rng.random() < 0.5 else [])))
+    # both directions of a pair inside ONE parameter (balanced), next to a symmetric one
+    a, b = pairs(2)
+    out.append(("directional-balanced-within-parameter", [[directed(a), directed(a, True)], [b]]))
+    # the two directions of a pair as two SEPARATE parameters (each unbalanced, their sum balanced)
+    a, b = pairs(2)
+    out.append(("directional-mirrored-parameters", [[directed(a)], [directed(a, True)]] + ([[b]] if rng.random() < 0.5 else [])))
+    # two parameters, each a union of one-directional terms, mirror images of each other
+    a, b = pairs(2)
+    fa, fb = rng.random() < 0.5, rng.random() < 0.5
+    out.append(("directional-mirrored-unions", [[directed(a, fa), directed(b, fb)], [directed(a, not fa), directed(b, not fb)]]))
+    # a single one-directional term
+    a, b = pairs(2)
+    out.append(("directional-single", [[directed(a, rng.random() < 0.5)]] + ([[b]] if rng.random() < 0.5 else [])))
+    # a directed 3-cycle in one parameter
+    x, y, z = rng.sample("ACGT", 3)
+    out.append(("directional-cycle", [[f"{x}>{y}", f"{y}>{z}", f"{z}>{x}"]]))
+    return [(layout, USER_PREFIX + ";".join("|".join(terms) for terms in params)) for layout, params in out]
+
+
+def user_models(rng, out):
+    """the candidates the library ACCEPTS as TimeReversible models (a refusal - ValueError - is counted and is fine: what must not
+    happen is a model handed out as time-reversible that is not)"""
+    from cogent3.evolve.substitution_model import TimeReversible
+
+    accepted = []
+    for layout, name in rand_user_models(rng):
+        try:
+            sm = ensure_model(name)
+        except ValueError as e:
+            bump(out, "user_model:" + layout, "refused: " + str(e)[:60])
+            continue
+        except Exception as e:  # noqa: BLE001
+            add_failure(out, "spec", "building a user-defined TimeReversibleNucleotide model raised something other than ValueError",
+                        dict(model=name), "a model or ValueError", f"{type(e).__name__}: {e}", sig=f"user-model-raised:{layout}:{type(e).__name__}")
+            continue
+        bump(out, "user_model:" + layout, "accepted" if isinstance(sm, TimeReversible) else "accepted-not-TimeReversible")
+        if isinstance(sm, TimeReversible):
+            accepted.append((layout, name))
+    return accepted
